@@ -22,6 +22,10 @@ CLAIMS = {
    text="stateful property-based testing: generated histories of evaluations, held/partially consumed lazy results and re-generations on one generator; each outcome is compared with the reference outcome of its own arguments; whole histories shrink as one value; sampled, not complete",
    note="trusts the reference interpreter; concurrency is out of scope here (C11)",
    tech="stateful property-based testing (generated operation histories against a reference model)"),
+ "C03": dict(level="exploration",
+   text="property-based testing against an independent reference parser: random operator tables and expression trees in three parenthesisations (the minimal one derived with the reference parser), and token-level mutations of valid programs where the reference decides accept/reject and the expected tree; sampled, not complete",
+   note="trusts the reference parser in harness/pratt (written from the grammar stated in the property) and the lexical joiner",
+   tech="property-based testing with a reference parser (precedence climbing) as oracle, mutation of token lists"),
  "C01": dict(level="exploration",
    text="differential property-based testing: programs from a typed grammar generator are evaluated by the implementation (optimizer on and off) and by an independent reference interpreter and compared deeply; shrunk counterexamples become replay files; sampled, not complete",
    note="trusts the reference interpreter and eager reference library in harness/ref (written from documentation, property text and repository tests) and the harness renderer; unspecified edges are skipped, not asserted",
